@@ -5,8 +5,108 @@
 use ipp_replay::{common::Inp, registry};
 use std::panic;
 
+/// C05 native confirmation: both real parsers on enumerated inputs x delivery schedules.
+mod dup {
+    use ipp::parser::{AsyncIppParser, IppParseError, IppParser};
+    use ipp::prelude::*;
+    use ipp::reader::{AsyncIppReader, IppReader};
+    use ipp_replay::tpl::{ASrc, Src};
+    use std::io::Read;
+
+    fn dump(h: &IppHeader, a: &IppAttributes, rest: Vec<u8>) -> String {
+        let mut s = format!("hdr={:04x}/{:04x}/{:08x}", h.version.0, h.operation_or_status, h.request_id);
+        for g in a.groups() {
+            let mut items: Vec<String> = g.attributes().values().map(|at| format!("{}={:?}", at.name(), at.value())).collect();
+            items.sort();
+            s += &format!(" [{:02x}: {}]", g.tag() as u8, items.join("; "));
+        }
+        s += &format!(" rest={:02x?}", rest);
+        s
+    }
+    fn err(e: &IppParseError) -> String {
+        match e {
+            IppParseError::InvalidTag(t) => format!("InvalidTag({:02x})", t),
+            IppParseError::InvalidCollection => "InvalidCollection".to_string(),
+            IppParseError::IoError(e) => format!("Io({:?})", e.kind()),
+        }
+    }
+    fn blocking(data: &'static [u8], mode: u8) -> String {
+        match IppParser::new(IppReader::new(Src::new(data, mode))).parse_parts() {
+            Ok((h, a, r)) => {
+                let mut rest = Vec::new();
+                let mut inner = r.into_inner();
+                inner.mode = 0;
+                let _ = inner.read_to_end(&mut rest);
+                dump(&h, &a, rest)
+            }
+            Err(e) => err(&e),
+        }
+    }
+    fn asynch(data: &'static [u8], mode: u8) -> String {
+        let r = futures_executor::block_on(AsyncIppParser::new(AsyncIppReader::new(ASrc::new(data, mode))).parse_parts());
+        match r {
+            Ok((h, a, r)) => {
+                let inner = r.into_inner();
+                dump(&h, &a, inner.data[inner.pos..].to_vec())
+            }
+            Err(e) => err(&e),
+        }
+    }
+    pub fn run() -> bool {
+        let hdr = [1u8, 1, 0, 2, 0, 0, 0, 7];
+        let mut inputs: Vec<Vec<u8>> = Vec::new();
+        // header + every tag byte (+ an empty name / empty value that a value tag would read)
+        for t in 0..=255u8 {
+            let mut v = hdr.to_vec();
+            v.push(t);
+            inputs.push(v.clone());
+            v.extend_from_slice(&[0, 1, b'a', 0, 0, 3]);
+            inputs.push(v);
+        }
+        // a message exercising every group kind and value family, with payload
+        let full: Vec<u8> = [
+            &hdr[..],
+            &[0x01, 0x47, 0, 2, b'c', b's', 0, 5, b'u', b't', b'f', b'-', b'8', 0x21, 0, 1, b'i', 0, 4, 0, 0, 1, 2, 0x21, 0, 0, 0, 4, 9, 9, 9, 9],
+            &[0x02, 0x44, 0, 1, b'k', 0, 3, b'o', b'n', b'e', 0x34, 0, 1, b'c', 0, 0, 0x4a, 0, 0, 0, 1, b'm', 0x22, 0, 0, 0, 1, 1, 0x22, 0, 0, 0, 1, 0, 0x37, 0, 0, 0, 0],
+            &[0x04, 0x13, 0, 1, b'n', 0, 0, 0x35, 0, 1, b't', 0, 7, 0, 2, b'e', b'n', 0, 1, b'x'],
+            &[0x05, 0x10, 0, 1, b'u', 0, 0, 0x03, b'p', b'a', b'y'],
+        ]
+        .concat();
+        for k in 0..=full.len() {
+            inputs.push(full[..k].to_vec());
+        }
+        // malformed markers
+        inputs.push([&hdr[..], &[0x04, 0x34, 0, 1, b'c', 0, 1, 9, 0x03]].concat());
+        inputs.push([&hdr[..], &[0x04, 0x37, 0, 0, 0, 1, 9, 0x03]].concat());
+        let mut n = 0;
+        let mut ok = true;
+        for inp in inputs {
+            let data: &'static [u8] = Box::leak(inp.clone().into_boxed_slice());
+            let reference = blocking(data, 0);
+            for (sm, am) in [(0u8, 0u8), (1, 1), (2, 2), (7, 4), (0, 5)] {
+                let b = blocking(data, sm);
+                let a = asynch(data, am);
+                n += 1;
+                if a != b || b != reference {
+                    println!("DISAGREE input={} blocking(mode {})={} async(mode {})={} reference={}", inp.iter().map(|x| format!("{:02x}", x)).collect::<String>(), sm, b, am, a, reference);
+                    ok = false;
+                    if n > 0 {
+                        println!("COMPARED {} runs", n);
+                        return ok;
+                    }
+                }
+            }
+        }
+        println!("COMPARED {} runs (blocking vs async, 5 schedules each), no disagreement", n);
+        ok
+    }
+}
+
 fn main() {
     let a: Vec<String> = std::env::args().collect();
+    if a.len() == 2 && a[1] == "--dup-differential" {
+        std::process::exit(if dup::run() { 0 } else { 1 });
+    }
     if a.len() < 3 {
         eprintln!("usage: ipp-replay <harness> <hex input> [tries]");
         std::process::exit(2);
